@@ -191,6 +191,11 @@ func keyVals(r *Rng, style, typ string, n int, hash bool, c, e string) []AV {
 		// escape itself.
 		var fam []string
 		switch {
+		case c == " " && hash:
+			// values made of white space only are values like any other
+			fam = []string{" ", "  ", "\t", "a", " a"}
+		case c == " ":
+			fam = []string{" ", "\t", "x", "x "}
 		case c == "%" && hash:
 			// values that a printf-style rendering would interpret
 			fam = []string{"a%s", "a%v", "a%d", "a%", "a%%"}
@@ -278,7 +283,7 @@ func (g *Gen) makeWorld() {
 		u := TableUni{Name: name, IdxVals: map[string][]AV{}}
 		sepC, sepE := ".", "\\"
 		if r.Chance(0.4) {
-			seps := []string{".", "\\", "|", ":", "#", ",", "/", "\x00", "%", "%"}
+			seps := []string{".", "\\", "|", ":", "#", ",", "/", "\x00", "%", "%", " ", " "}
 			sepC, sepE = pick(r, seps), pick(r, seps)
 		}
 		maxVals := 4
@@ -290,6 +295,16 @@ func (g *Gen) makeWorld() {
 		g2T := pick(r, []string{"S", "S", "N"})
 		if style != "numeric" && p.Prop != "C02" && p.Prop != "C04" {
 			g2T = "S"
+		}
+		if style == "numeric" && hashT == "N" && !mixedWidthNumbers && r.Chance(0.3) {
+			// decimals as key values: (1.5, 2) and (1, 5.2) are different keys
+			u.HashVals = []AV{N("1"), N("1.5"), N("2")}
+			switch rangeT {
+			case "N":
+				u.RangeVals = []AV{N("2"), N("5.2"), N("5")}
+			case "S":
+				u.RangeVals = []AV{S("x"), S("5.x"), S("2"), S("5.2")}
+			}
 		}
 		if p.Big {
 			u.HashVals, u.RangeVals = nil, nil
@@ -639,6 +654,14 @@ func (g *Gen) item(name string, def TableDef, key Item) Item {
 		a := pick(g.R, dataAttrs)
 		it[a.name] = g.value(a.typ)
 	}
+	if g.R.Chance(0.12) {
+		// a top-level attribute whose name contains a dot, read by conditions and
+		// filters through a #name. (No map "d" with a member "v" next to it: when
+		// no attribute "d.v" exists the library falls back to reading the #name's
+		// value as a document path, where DynamoDB sees an absent attribute -
+		// expression semantics, C06, appendix C.)
+		it["d.v"] = g.value("N")
+	}
 	return it
 }
 
@@ -666,7 +689,7 @@ func (g *Gen) cond(name string, def TableDef, depth int) *Expr {
 	}
 	// leaf
 	type cand struct{ name, typ string }
-	cands := []cand{{"a", "S"}, {"A", "S"}, {"b", "S"}, {"n", "N"}, {"c", "N"}, {"f", "BOOL"}, {"ss", "SS"}, {"m", "M"}, {"l", "L"}}
+	cands := []cand{{"a", "S"}, {"A", "S"}, {"b", "S"}, {"n", "N"}, {"c", "N"}, {"f", "BOOL"}, {"ss", "SS"}, {"m", "M"}, {"l", "L"}, {"d.v", "N"}}
 	for _, k := range def.KeyAttrs() {
 		cands = append(cands, cand{k.Name, k.Type})
 	}
@@ -1529,7 +1552,7 @@ func (g *Gen) try(m *Model, eng *Engine) *Cmd {
 		}
 		if r.Chance(0.12) {
 			// SetInterpreter with a fresh native interpreter, or the debug switch
-			cmd.Native, cmd.T = pick(r, []string{"reset", "reset", "debug"}), ""
+			cmd.Native, cmd.T = pick(r, []string{"reset", "reset", "debug", "metrics"}), ""
 			if cmd.Native == "reset" {
 				var keep []natFilter
 				g.natFilters = keep
